@@ -64,7 +64,12 @@ class CGenerator:
         return arrref + "[" + self.visit(n.subscript) + "]"
 
     def visit_StructRef(self, n: c_ast.StructRef) -> str:
-        sref = self._parenthesize_unless_simple(n.name)
+        # A numeric constant directly followed by '.' would lex as a floating
+        # constant ("1.m"), so constants are parenthesized here.
+        sref = self._parenthesize_if(
+            n.name,
+            lambda d: not self._is_simple_node(d) or isinstance(d, c_ast.Constant),
+        )
         return sref + n.type + self.visit(n.field)
 
     def visit_FuncCall(self, n: c_ast.FuncCall) -> str:
